@@ -54,7 +54,7 @@ def init_zygote():
 # generation of specs
 
 NAMES_S = ["Linus", "Arnold", "Jerry", "Elizer", "A very long name which needs truncation", "", "ü-ñ", "x",
-           "a|b", " padded ", "semi;colon,comma:colon", "Jerry", "\u65e5\u672c\u8a9e", "e\u0301te\u0301", "two\nlines"]
+           "a|b", " padded ", "semi;colon,comma:colon", "Jerry", "\u65e5\u672c\u8a9e", "e\u0301te\u0301", "two\nlines", "cr\rlf\r\nend"]
 
 
 def gen_enum(rng):
@@ -971,6 +971,11 @@ def _do_op(w, trace, op, n, k, log, color):
                                 or t.mode["no_color"] or t.mode.get("palette")):
             how = "str"
         if how == "lines":
+            if op.get("poke") and t.r.res is not None and kind in ("pp", "table", "ghist"):
+                # the result is used as a text first (so its whole text exists) and is walked line by line then
+                w.guarded("poke-" + op["poke"], t.ctx(), rw.ro.poke, t.r, op["poke"])
+                w.stats["pokes"] = w.stats.get("pokes", 0) + 1
+                w.stats["lines_after_whole"] = w.stats.get("lines_after_whole", 0) + 1
             if op.get("late"):
                 # the consumer collects the line objects and looks at them when all have been produced
                 lines = w.guarded("iterate-lines", t.ctx(),
